@@ -1590,7 +1590,9 @@ Lemma ex_stuck : exists s, Reach 2 1 [[OSPop]; [ONew; OSPush; OSPop; OSPop]] s /
 Proof.
   exists (run st step (init 2 1 [[OSPop]; [ONew; OSPush; OSPop; OSPop]]) [0; 1; 1; 1; 1; 1; 0; 1; 1]).
   split; [exists [0; 1; 1; 1; 1; 1; 0; 1; 1]; reflexivity|]. split; [|split].
-  - intros [|[|t]]; vm_compute; reflexivity.
+  - intros [|[|t]]; [vm_compute; reflexivity | vm_compute; reflexivity | ].
+    unfold step. match goal with |- match ?e with _ => _ end = _ => assert (E : e = None) by (apply nth_error_None; vm_compute; lia); rewrite E end.
+    reflexivity.
   - exists 1. eexists. vm_compute. split; reflexivity.
   - vm_compute. discriminate.
 Qed.
